@@ -107,10 +107,17 @@ func (a *RecAppender) Start() error {
 	return nil
 }
 
+// OnStop, when set, is called by every recording appender from inside its Stop (user code that runs while Destroy is
+// under way, e.g. an appender that logs its own shutdown).
+var OnStop func(name string)
+
 func (a *RecAppender) Stop() {
 	a.mu.Lock()
 	a.stopped++
 	a.mu.Unlock()
+	if f := OnStop; f != nil {
+		f(a.Name)
+	}
 }
 
 func (a *RecAppender) wait(id int64) {
